@@ -935,18 +935,18 @@ def run(ctx, args):
     n_lines += sum(len(j[1]) for j in jobs)
 
     # 4. end-to-end route: quick tier -O0 only (the stall / loss classes are fixed and must stay fixed),
-    #    thorough tier -O0 and -O2; VERIF_C10_E2E=0 switches it off, =1 forces both levels
+    #    thorough tier -O0 and -O2; VERIF_C10_E2E=0 switches it off, =1 forces both levels, =O0 forces -O0 only
     e2e_env = os.environ.get("VERIF_C10_E2E")
     load1, ncpu = os.getloadavg()[0], (os.cpu_count() or 1)
     if e2e_env == "0":
         ctx.coverage["e2e"] = "switched off (VERIF_C10_E2E=0)"
-    elif quick and e2e_env != "1" and load1 > 1.5 * ncpu:
+    elif quick and e2e_env not in ("1", "O0") and load1 > 1.5 * ncpu:
         # idle cost of the e2e section is ~20-40 s (llgo build ~9 s warm, one program ~10 s); on a machine that is
         # heavily shared it takes minutes and would blow the quick tier's budget: it is then left to the thorough tier
         ctx.coverage["e2e"] = "skipped in the quick tier: load average %.0f on %d cpus (force with VERIF_C10_E2E=1)" % (load1, ncpu)
         ctx.log("e2e: " + ctx.coverage["e2e"])
     else:
-        e2e_part(ctx, ("-O0",) if (quick and e2e_env != "1") else ("-O0", "-O2"))
+        e2e_part(ctx, ("-O0",) if ((quick and e2e_env != "1") or e2e_env == "O0") else ("-O0", "-O2"))
 
     # verdict on the correspondence
     if mismatches:
